@@ -212,24 +212,45 @@ def record_of(rid, fam, gs, obs):
     return {"id": rid, "fam": fam, "g": gs, "o": obs}
 
 
-def replay_cases(ctx, fam, cases, keep=2000, report=True):
+def enum_jobs(ctx, fam, cases, keep=2000):
     keep_p = min(1.0, keep / max(1, len(cases)))
-    jobs = [(fam, c, ctx.rng.randrange(1 << 30), ctx.rng.random() < keep_p) for c in cases]
-    kept, brokens = [], []
-    for (fam_, case, _s, _k), (tag, broken, obs, seed) in zip(jobs, pmap(_work, jobs, chunk=64)):
+    return [("enum", fam, c, ctx.rng.randrange(1 << 30), ctx.rng.random() < keep_p) for c in cases]
+
+
+def _work_any(job):
+    """One pool for everything: ("enum", fam, case, seed, keep) or ("rand", fam, graph, seed)."""
+    if job[0] == "enum":
+        return _work(job[1:])
+    return _observe_random(job[1:])
+
+
+def absorb(ctx, jobs, results, report=True):
+    """Book-keeping of the results of enum / rand jobs: returns (quads to cross-validate, quads for TLC alone)."""
+    xval, rnd = [], []
+    for job, res in zip(jobs, results):
+        if job[0] == "rand":
+            fam, case, obs = res
+            if isinstance(obs, dict):
+                ctx.skip(obs["skip"])
+                continue
+            ctx.count(H._sortkey([fam, case["g"]]), True)
+            rnd.append((fam, case, obs, None))
+            continue
+        _t, fam, case, _s, _k = job
+        tag, broken, obs, seed = res
         if tag == "skip":
             ctx.skip(broken)
             continue
         ctx.count(H._sortkey([fam, case["g"]]), nontrivial(case))
         if broken:
-            brokens.append((fam, case, obs, broken))
+            xval.append((fam, case, obs, broken))
             if report:
                 sig = classify(fam, case["g"], broken)
                 ctx.violation(sig, "%s graph: key %s breaks %s" % (fam, H.to_py(case["g"][broken[0][0]]["k"]), "/".join(broken[0][1])),
                               {"fam": fam, "case": case, "seed": seed, "observed": obs, "broken": broken})
         elif obs is not None:
-            kept.append((fam, case, obs, broken))
-    return kept, brokens
+            xval.append((fam, case, obs, broken))
+    return xval, rnd
 
 
 _RE_CODE = re.compile(r'\{"([0-9a-zA-Z+-]+)"\}')
@@ -416,19 +437,12 @@ def _observe_random(job):
     return fam, {"g": gs, "val": vals, "refs": rf}, obs
 
 
-def random_quads(ctx, n, depths):
+def rand_jobs(ctx, n, depths):
     jobs = []
     for _ in range(n):
         fam = ctx.rng.choice(["legacy", "ts"])
-        jobs.append((fam, random_graph(ctx.rng, fam, ctx.rng.choice(depths)), ctx.rng.randrange(1 << 30)))
-    out = []
-    for fam, case, obs in pmap(_observe_random, jobs, chunk=64):
-        if isinstance(obs, dict):
-            ctx.skip(obs["skip"])
-            continue
-        ctx.count(H._sortkey([fam, case["g"]]), True)
-        out.append((fam, case, obs, None))
-    return out
+        jobs.append(("rand", fam, random_graph(ctx.rng, fam, ctx.rng.choice(depths)), ctx.rng.randrange(1 << 30)))
+    return jobs
 
 
 def run(ctx):
@@ -440,7 +454,7 @@ def run(ctx):
                      [("legacy", 2, 0), ("ts", 2, 0)])
     import dask.core  # noqa: F401 - imported before the worker processes are forked
     import dask._task_spec  # noqa: F401
-    xval = []
+    jobs = []
     for fam, depth, last in confs:
         spec, cfg = ctx.model(ctx.spec("graph", "TaskSpecMC.tla"), {"Fam": fam, "Depth": depth, "Last": last}, invariants=INVS)
         cases, _ = ctx.tlc_cases(spec, cfg, label="design+cases:%s,depth=%d,last=%d" % (fam, depth, last), timeout=3000,
@@ -456,10 +470,10 @@ def run(ctx):
             if [_ck(v) for v in vals] != [_ck(v) for v in c["val"]] or \
                [sorted(_ck(r) for r in x) for x in rf] != [sorted(_ck(r) for r in x) for x in c["refs"]]:
                 raise MachineryError("Python twin of Val/RefsOf disagrees with TLC on %r" % (c["g"],))
-        kept, brokens = replay_cases(ctx, fam, cases, keep=ctx.pick(1500, 6000))
+        jobs += enum_jobs(ctx, fam, cases, keep=ctx.pick(1500, 6000))
         ctx.sample({"family": fam, "graph": cases[-1]["g"][-1], "value": cases[-1]["val"][-1], "refs": cases[-1]["refs"][-1]})
-        xval += kept + brokens
-    rnd = random_quads(ctx, ctx.pick(6000, 40000), ctx.pick([2, 3, 4], [2, 3, 4, 5]))
+    jobs += rand_jobs(ctx, ctx.pick(6000, 20000), ctx.pick([2, 3, 4], [2, 3, 4, 5]))
+    xval, rnd = absorb(ctx, jobs, pmap(_work_any, jobs, chunk=128))
     validate_records(ctx, xval + rnd, "trace-validation:enumerated-sample+random-deeper-graphs")
     ctx.exhaustive = not sampled
     ctx.rule = ("case = one graph (surrounding nodes + the expression under test as key 'out') in the legacy or the "
@@ -536,8 +550,10 @@ def selftest(ctx):
          'self.kwargs["constructor"] = self.__class__.constructor', "pass"),
         ("execute_graph: results are released although they were requested", ts, "execute_graph",
          "if refcount[dep] == 0 and keys and dep not in keys:", "if refcount[dep] == 0 and keys:"),
-        ("Alias.__call__: returns the value of its own key instead of the target", ts, "Alias.__call__",
-         "return values[self.target]", "return values.get(self.key, values[self.target])"),
+        ("convert_legacy_task: integer keys are no longer recognised as references", ts, "convert_legacy_task",
+         "if isinstance(task, (int, float, str, tuple)):", "if isinstance(task, (float, str, tuple)):"),
+        ("Task.__call__: nested nodes are evaluated on all values instead of their own dependencies, TaskRef not resolved", ts,
+         "Task.__call__", "return values[a.key]", "return a.key"),
     ]
     for title, mod, name, old, new in mutants:
         with mutant(mod, name, old, new):
@@ -553,7 +569,7 @@ def selftest(ctx):
             continue
         good.append((fam, case, obs))
         o2 = [dict(o) for o in obs]
-        o2[-1]["deps"] = o2[-1]["deps"][1:]
+        o2[-1]["deps"] = o2[-1]["deps"][1:] if o2[-1]["deps"] else [{"t": "str", "s": "a"}]
         bad.append(("dropped dependency", fam, case, o2))
         o3 = [dict(o) for o in obs]
         o3[-1]["pcall"] = {"t": "app", "f": "c1", "a": []}
